@@ -55,11 +55,11 @@ func (o *outcome) describe() string {
 	return "ok"
 }
 
-var reScratchPath = regexp.MustCompile(`/[^\s:]*/([^/\s:]+\.(?:frugal|thrift))`)
+var reScratchPath = regexp.MustCompile(`(^|[\s:\[(])/[^\s:]*/([^/\s:]+\.(?:frugal|thrift))`)
 
 // cleanMsg removes scratch directories and line breaks from a diagnostic.
 func cleanMsg(s string) string {
-	s = reScratchPath.ReplaceAllString(s, "$1")
+	s = reScratchPath.ReplaceAllString(s, "$1$2")
 	return strings.Join(strings.Fields(strings.ReplaceAll(s, "\n", " / ")), " ")
 }
 
@@ -175,7 +175,7 @@ type evaluator struct {
 func (e *evaluator) run(p *idl.Program, expected map[string]tree, st idl.Style) *outcome {
 	e.n++
 	dir := filepath.Join(e.base, fmt.Sprintf("r%d", e.n))
-	root, err := idl.WriteProgram(p, dir, st)
+	root, err := writeProgram(p, dir, st)
 	if err != nil {
 		return &outcome{Kind: "parse-error", Err: "harness: cannot write the program: " + err.Error(), Dir: dir}
 	}
@@ -299,6 +299,11 @@ func modelSig(o *outcome) string {
 	case "hang":
 		return "C10:parser-hang"
 	}
+	for _, d := range o.Diffs {
+		if d.Leaf == "resolved_to_other_file" { // an includer was served another directory's file of the same base name
+			return "C10:mismatch:includes.resolved_to_other_file"
+		}
+	}
 	if len(o.Diffs) > 0 {
 		return "C10:mismatch:" + o.Diffs[0].Kind + "." + o.Diffs[0].Leaf
 	}
@@ -398,6 +403,10 @@ func (e *evaluator) explain(p *idl.Program, expected map[string]tree, st idl.Sty
 			// keep the neutralised model: try the next quarantined construct on top
 			expected, o = exp2, o2
 		}
+	}
+	if o.Kind == "parse-error" && errClass(o.Err) == "circular-include" && (p.Features["multidir_transitive_same_base_name_chain"] || p.Features["multidir_direct_same_base_name_chain"]) {
+		// no file of these models reaches itself: a namesake on the include stack was taken for a cycle
+		return []failure{mk("C10:lexical:same_base_name_transitive_include", st, o)}, true
 	}
 	return []failure{mk(modelSig(o), st, o)}, true
 }
